@@ -86,6 +86,7 @@ def spec_factor(t, key):
 
 
 class SplitLoop(LoopContract):
+    modifies = ("ret",)          # the dict entries are replaced in place
     def iter_spec(self, vc, frame, seq):
         return [("runs-over-the-objects-of-the-term", seq.obj is frame["self"].f["objseq"])]
 
@@ -371,6 +372,7 @@ def sym_is_one(ip, a, b):
 
 
 class CancelLoop(LoopContract):
+    modifies = ("num", "pref", "cancelled_result")
     def iter_spec(self, vc, frame, seq):
         inner = getattr(seq.obj, "inner", None)
         return [("runs-over-the-denominator-brackets",
